@@ -1,6 +1,7 @@
 package cidx
 
 import (
+	"encoding/json"
 	"fmt"
 	"sync"
 	"testing"
@@ -16,6 +17,7 @@ func TestC13Concurrent(t *testing.T) {
 	rapid.Check(t, func(rt *rapid.T) {
 		cfg := genCfg().Draw(rt, "cfg")
 		cfg.Standing = nil
+		cfg.SlowListener = rapid.IntRange(0, 2).Draw(rt, "slowListener")
 		ng := rapid.IntRange(2, 4).Draw(rt, "goroutines")
 		progs := make([][]Op, ng)
 		for g := range progs {
@@ -332,5 +334,90 @@ func TestC13ManyValues(t *testing.T) {
 			}
 		}
 		ev.Case(true, evid.Hash("many", n, cfg.Prefix), "many-values")
+	})
+}
+
+// TestC14ConcurrentOrder: goroutines mutate the same few ids at the same time. Per id the
+// query-change callbacks must come in mutation order: every callback's "before" has the
+// index keys of the previous callback's "after" (callbacks exist only for key-changing
+// mutations), the first one starts from nothing and the last one ends at what the store
+// holds.
+func TestC14ConcurrentOrder(t *testing.T) {
+	ev := evid.For("C14")
+	rapid.Check(t, func(rt *rapid.T) {
+		cfg := genCfg().Draw(rt, "cfg")
+		cfg.Standing = nil
+		cfg.SlowListener = rapid.IntRange(0, 2).Draw(rt, "slowListener")
+		ng := rapid.IntRange(2, 4).Draw(rt, "goroutines")
+		ids := []string{"1", "2"}
+		progs := make([][]Op, ng)
+		for g := range progs {
+			n := rapid.IntRange(3, 25).Draw(rt, "nops")
+			for i := 0; i < n; i++ {
+				k := rapid.SampledFrom([]string{"create", "update", "update", "delete"}).Draw(rt, "k")
+				progs[g] = append(progs[g], Op{K: k, ID: rapid.SampledFrom(ids).Draw(rt, "id"), A: rapid.SampledFrom(fieldAlpha).Draw(rt, "a"), B: rapid.SampledFrom(fieldAlpha).Draw(rt, "b")})
+			}
+		}
+		m, err := newMachine(cfg)
+		if err != nil {
+			rt.Fatalf("VERIF-INCONCLUSIVE: %v", err)
+		}
+		defer m.cleanup()
+		var wg sync.WaitGroup
+		for _, prog := range progs {
+			wg.Add(1)
+			go func(prog []Op) {
+				defer wg.Done()
+				for _, op := range prog {
+					_ = m.mutate(op)
+				}
+			}(prog)
+		}
+		wg.Wait()
+		m.qs.Flush()
+		// the index keys of a value; an absent value and a value none of whose keys is set
+		// look the same to the indexes (going from one to the other runs no callback)
+		keysOf := func(js string) string {
+			var r *Rec
+			if js != "" {
+				r = &Rec{}
+				_ = json.Unmarshal([]byte(js), r)
+			}
+			out := ""
+			for _, idx := range cfg.Indexes {
+				if k := keyOf(idx, r); k == nil {
+					out += idx + "=nil;"
+				} else {
+					out += fmt.Sprintf("%s=%q;", idx, k)
+				}
+			}
+			return out
+		}
+		m.mu.Lock()
+		log := append([]qcRecord(nil), m.qclog...)
+		m.mu.Unlock()
+		last := map[string]string{}
+		for _, id := range ids {
+			last[id] = keysOf("")
+		}
+		for i, rec := range log {
+			if b := keysOf(rec.Before); b != last[rec.ID] {
+				rt.Fatalf("query-change callback %d of %d for id %s reports the previous value %s (index keys %s); the callback before it for that id left the keys %s - callbacks out of mutation order (store OnChange listener delay %d)", i, len(log), rec.ID, rec.Before, b, last[rec.ID], cfg.SlowListener)
+			}
+			last[rec.ID] = keysOf(rec.After)
+		}
+		for _, id := range ids {
+			tx := m.st.Read(id)
+			v, err := tx.Value()
+			_ = tx.Close()
+			stored := keysOf("")
+			if err == nil {
+				stored = keysOf(recJSON(v))
+			}
+			if stored != last[id] {
+				rt.Fatalf("id %s: the last query-change callback left the index keys %s, the store holds %s", id, last[id], stored)
+			}
+		}
+		ev.Case(len(log) > 2, evid.Hash("concorder", fmt.Sprint(cfg), fmt.Sprint(progs)), "concurrent-order")
 	})
 }
